@@ -24,12 +24,12 @@ UNITS = {
             klass="complete", domain="all 65536 u16 values; loop-free",
             pre="v: any u16",
             post="no arithmetic overflow on any path (debug == release); Ok(w) <=> 1 <= v <= 9; w as u16 == v",
-            kind="obligation", tiers=["quick", "thorough"], timeout_s=120, needs_fmt_stub=True,
+            kind="obligation", tiers=["quick", "thorough"], timeout_s=600, needs_fmt_stub=True,
         ),
         dict(
             obligation="c19_width_class_cover", engine="kani", crate="fontdrasil",
             src="fontdrasil/src/types.rs", functions=[], klass="complete", domain="", pre="", post="Ok and Err both reachable",
-            kind="cover", tiers=["quick", "thorough"], timeout_s=120, needs_fmt_stub=True,
+            kind="cover", tiers=["quick", "thorough"], timeout_s=600, needs_fmt_stub=True,
         ),
         dict(
             obligation="c19_component_offset_rounded_or_rejected", engine="kani", crate="fontbe",
@@ -37,7 +37,7 @@ UNITS = {
             klass="complete", domain="all finite f64 offsets e,f; any u16 glyph id; loop-free",
             pre="e, f finite; 2x2 = identity",
             post="Ok((c,_)) => c.x == floor(e + 0.5) and c.y == floor(f + 0.5) exactly, and c.glyph == gid (a stored offset is the OT-rounded source value, never a clamp, also at rounding ties)",
-            kind="obligation", tiers=["quick", "thorough"], timeout_s=120,
+            kind="obligation", tiers=["quick", "thorough"], timeout_s=600,
         ),
         dict(
             obligation="c19_component_offset_in_range_accepted", engine="kani", crate="fontbe",
@@ -45,7 +45,7 @@ UNITS = {
             klass="complete", domain="all f64 e,f in [-32768, 32767]; loop-free",
             pre="-32768 <= e,f <= 32767",
             post="result is Ok and offsets == floor(v + 0.5) exactly",
-            kind="obligation", tiers=["quick", "thorough"], timeout_s=120,
+            kind="obligation", tiers=["quick", "thorough"], timeout_s=600,
         ),
         dict(
             obligation="c19_component_2x2_within_one_ulp", engine="kani", crate="fontbe",
@@ -53,12 +53,12 @@ UNITS = {
             klass="complete", domain="all f64 a,d in [-2,2]; loop-free",
             pre="-2 <= a,d <= 2 (upstream decomposition guarantee); b = c = 0",
             post="Ok; |F2Dot14 bits - v*16384| <= 1 for xx, yy; xy == yx == 0",
-            kind="obligation", tiers=["quick", "thorough"], timeout_s=300,
+            kind="obligation", tiers=["quick", "thorough"], timeout_s=900,
         ),
         dict(
             obligation="c19_component_cover", engine="kani", crate="fontbe",
             src="fontbe/src/glyphs.rs", functions=[], klass="complete", domain="", pre="", post="Ok reachable incl. large +/- offsets",
-            kind="cover", tiers=["quick", "thorough"], timeout_s=120,
+            kind="cover", tiers=["quick", "thorough"], timeout_s=600,
         ),
     ],
 }
@@ -76,26 +76,26 @@ def _c16_units():
         us.append(dict(obligation=f"c16_rank_bitor_{la}_{lb}", engine="kani", crate="fontir", src=src,
                        functions=["fontir::feature_variations::<&Rank as BitOr<&Rank>>::bitor"], klass="bounded", domain=bound,
                        pre="a, b arbitrary ranks of the stated word counts", post="val(&a | &b) == val(a) | val(b) (word-wise, aligned at the least significant word)",
-                       kind="obligation", tiers=tiers, timeout_s=600))
+                       kind="obligation", tiers=tiers, timeout_s=900))
         us.append(dict(obligation=f"c16_rank_bitor_assign_{la}_{lb}", engine="kani", crate="fontir", src=src,
                        functions=["fontir::feature_variations::<Rank as BitOrAssign<&Rank>>::bitor_assign"], klass="bounded", domain=bound,
                        pre="a, b arbitrary ranks of the stated word counts", post="after a |= &b: val(a') == val(a) | val(b)",
-                       kind="obligation", tiers=tiers, timeout_s=600))
+                       kind="obligation", tiers=tiers, timeout_s=900))
         us.append(dict(obligation=f"c16_rank_eq_{la}_{lb}", engine="kani", crate="fontir", src=src,
                        functions=["fontir::feature_variations::<Rank as PartialEq>::eq"], klass="bounded", domain=bound,
                        pre="a, b arbitrary ranks of the stated word counts", post="(a == b) <=> val(a) == val(b); leading zero words are insignificant",
-                       kind="obligation", tiers=tiers, timeout_s=600))
+                       kind="obligation", tiers=tiers, timeout_s=900))
     for l in range(6):
         tiers = ["thorough"] if l >= 4 else ["quick", "thorough"]
         bound = f"exactly {l} stored u64 words, contents arbitrary"
         us.append(dict(obligation=f"c16_rank_shift_{l}", engine="kani", crate="fontir", src=src,
                        functions=["fontir::feature_variations::Rank::right_shift_one"], klass="bounded", domain=bound,
                        pre="a arbitrary", post="val(a') == val(a) / 2 (bit 0 of word j+1 moves into bit 63 of word j)",
-                       kind="obligation", tiers=tiers, timeout_s=600))
+                       kind="obligation", tiers=tiers, timeout_s=900))
         us.append(dict(obligation=f"c16_rank_probe_{l}", engine="kani", crate="fontir", src=src,
                        functions=["fontir::feature_variations::Rank::first_bit_is_set", "fontir::feature_variations::Rank::is_all_zeros"], klass="bounded", domain=bound,
                        pre="a arbitrary", post="first_bit_is_set <=> val odd; is_all_zeros <=> val == 0",
-                       kind="obligation", tiers=tiers, timeout_s=600))
+                       kind="obligation", tiers=tiers, timeout_s=900))
     for la, lb in [(1, 1), (2, 2), (1, 2), (2, 1), (3, 2), (0, 1)]:
         us.append(dict(obligation=f"c16_rank_sort_key_orders_by_rule_count_{la}_{lb}", engine="kani", crate="fontir", src=src,
                        functions=["fontir::feature_variations::Rank::count_ones (the overlay's sort key, used as Reverse(count_ones); the anchor pins the sort_by_key line)"], klass="bounded",
@@ -104,14 +104,14 @@ def _c16_units():
                        kind="obligation", tiers=["quick", "thorough"], timeout_s=600))
     us.append(dict(obligation="c16_rank_new_is_power_of_two", engine="kani", crate="fontir", src=src,
                    functions=["fontir::feature_variations::Rank::new"], klass="bounded", domain="rule index i < 192 (1..3 words)",
-                   pre="i < 192", post="val(Rank::new(i)) == 2^i", kind="obligation", tiers=["quick", "thorough"], timeout_s=300))
+                   pre="i < 192", post="val(Rank::new(i)) == 2^i", kind="obligation", tiers=["quick", "thorough"], timeout_s=900))
     us.append(dict(obligation="c16_nbox_insert_get_clamps", engine="kani", crate="fontir", src=src,
                    functions=["fontir::feature_variations::NBox::insert", "fontir::feature_variations::NBox::get"], klass="complete",
                    domain="every non-NaN f64 (incl. +/-inf) or None for each bound, one axis inserted into an empty box; loop-free apart from the 4-byte Tag compare",
                    pre="min, max: Option<non-NaN f64>", post="get(axis) == (max(min,-1), min(max,+1)) with None = open end; interval inside [-1,1]; a never-inserted axis reads (-1,+1)",
-                   kind="obligation", tiers=["quick", "thorough"], timeout_s=300))
+                   kind="obligation", tiers=["quick", "thorough"], timeout_s=900))
     us.append(dict(obligation="c16_rank_cover", engine="kani", crate="fontir", src=src, functions=[], klass="complete", domain="", pre="",
-                   post="generator reaches non-zero multi-word ranks, equal ranks of different length, odd ranks", kind="cover", tiers=["quick", "thorough"], timeout_s=300))
+                   post="generator reaches non-zero multi-word ranks, equal ranks of different length, odd ranks", kind="cover", tiers=["quick", "thorough"], timeout_s=900))
     return us
 
 
@@ -119,7 +119,7 @@ UNITS["C16"] = _c16_units()
 
 
 # ------------------------------------------------------------------ C07
-def _k(ob, crate, src, fns, klass, domain, pre, post, tiers=("quick", "thorough"), timeout_s=300, kind="obligation", **kw):
+def _k(ob, crate, src, fns, klass, domain, pre, post, tiers=("quick", "thorough"), timeout_s=900, kind="obligation", **kw):
     return dict(obligation=ob, engine="kani", crate=crate, src=src, functions=fns, klass=klass, domain=domain, pre=pre, post=post,
                 kind=kind, tiers=list(tiers), timeout_s=timeout_s, **kw)
 
@@ -234,8 +234,8 @@ for _nm, _fn, _dom, _pre, _post in [
     ("c19_vertical_origin_out_of_range_never_wraps", "vertical_origin", "every finite v outside that range; loop-free", "v does not fit", "result is the nearest bound: never a wrapped value"),
     ("c19_vertical_origin_out_of_range_is_not_silently_stored", "vertical_origin", "every finite v outside that range; loop-free", "v does not fit", "from the property statement: the value must not be stored as something else (FAILS today: known finding C19-vertical-origin-saturates)"),
 ]:
-    UNITS["C19"].insert(-1, _k(_nm, "fontir", _IR, [f"fontir::ir::GlyphInstance::{_fn}"], "complete", _dom, _pre, _post, timeout_s=120))
-UNITS["C19"].insert(-1, _k("c19_glyph_height_cover", "fontir", _IR, [], "complete", "", "", "ordinary, saturated and fallback paths reachable", kind="cover", timeout_s=120))
+    UNITS["C19"].insert(-1, _k(_nm, "fontir", _IR, [f"fontir::ir::GlyphInstance::{_fn}"], "complete", _dom, _pre, _post, timeout_s=600))
+UNITS["C19"].insert(-1, _k("c19_glyph_height_cover", "fontir", _IR, [], "complete", "", "", "ordinary, saturated and fallback paths reachable", kind="cover", timeout_s=600))
 
 # C19 cross-listing: MetricsBuilder::update's i16 clamps / overflow freedom are also a C19 obligation
 UNITS["C19"].insert(-1, dict(next(u for u in UNITS["C17"] if u["obligation"] == "c17_metrics_update_contract")))
